@@ -22,6 +22,8 @@ def patterns(alpha, maxlen, minlen=0):
 def text_alpha_for(p, mode):
     if mode == 'full':
         return SIGMA
+    if mode == 'long':
+        return ['a', 'b']
     if mode == 'other':
         return ['-', '/', ',', '#', ' ', 'a']
     if mode == 'astral':
@@ -138,6 +140,9 @@ def build(tier):
     astral = ['\U0001F600', 'a', '%', '_']
     plans.append(('py', 'astral', list(patterns(astral, 3)), 3))
     plans.append(('js', 'astral', list(patterns(astral, 3)), 3))
+    # scale probe: patterns of length 5-8 and texts up to 8 over a 3/2-symbol alphabet (beyond the length bound of the main product)
+    plans.append(('py', 'long', list(patterns(['a', '%', '_'], 8 if tier == 'thorough' else 7, 5)), 8 if tier == 'thorough' else 7))
+    plans.append(('js', 'long', list(patterns(['a', '%', '_'], 6, 5)), 6))
     other = ['-', '/', ',', '#', ' ', '%', '_', 'a']
     plans.append(('py', 'other', list(patterns(other, 3)), 3))
     plans.append(('js', 'other', list(patterns(other, 3)), 3))
